@@ -181,6 +181,18 @@ func c12Eq(a, b any) bool {
 			}
 		}
 		return true
+	case map[c12NamedStr]int:
+		y, ok := b.(map[c12NamedStr]int)
+		if !ok || len(x) != len(y) {
+			return false
+		}
+		for k, v := range x {
+			w, ok := y[k]
+			if !ok || v != w {
+				return false
+			}
+		}
+		return true
 	case map[string]*int:
 		y, ok := b.(map[string]*int)
 		if !ok || len(x) != len(y) {
@@ -362,7 +374,13 @@ func VerifC12Maps() {
 	c12Reg()
 	n := vrange("n", 0, 2)
 	keys := []string{"k1", "k2"}
-	switch vchoose("shape", 5) {
+	switch vchoose("shape", 6) {
+	case 5: // keys of a named string type (schema.RoleType is one)
+		m := map[c12NamedStr]int{}
+		for i := 0; i < n; i++ {
+			m[c12NamedStr(keys[i])] = vsymInt("v")
+		}
+		c12Check(m, "map[named string]int")
 	case 0:
 		var m map[string]int
 		if vchoose("nil", 2) == 0 {
